@@ -3,6 +3,7 @@ package core
 import (
 	"fmt"
 	"go/token"
+	"go/types"
 	"sort"
 	"strings"
 
@@ -380,4 +381,12 @@ func (e *Effects) NonFreshMutations(rels ...string) []Mutation {
 		}
 	}
 	return out
+}
+
+// TypeShortOf renders a (pointer to a) named type as "pkg/rel.Type".
+func TypeShortOf(t interface{ String() string }) string {
+	if tt, ok := t.(interface{ Underlying() types.Type }); ok {
+		return typeShort(tt.(types.Type))
+	}
+	return t.String()
 }
